@@ -51,12 +51,43 @@ def run(F, G, tier, seed):
             elif lb in ("LABEL", "CONSTANT", "REF", "SYSTEM_META", "URGENT", "BROADCAST", "COMMITTED", "HYBRID"):
                 chk.ob(rid3, "checkType|%s" % lb, any("type[0]" in r for r in rec),
                        "checkType(%s) does not descend into the wrapped type" % lb, "%s:%s" % (ct["file"], ct["line"]))
-    for fnname, what in (("visitVariable", "variable.uid"), ("visitEdge", "select"), ("visitInstance", "type[i]"),
-                         ("visitBlockStatement", "symbol"), ("visitIterationStatement", "type")):
+    from ..facts import walk
+
+    def provenance(f, e):
+        """names (parameters, members, member functions) the value of e is computed from, through the initialisers of
+        locals and the ranges of range-for variables"""
+        src = {}
+        for d in walk(f["body"]):
+            if d.get("k") == "decl":
+                for v in d.get("vars", []):
+                    if v.get("init") is not None:
+                        src.setdefault(v.get("name"), []).append(v["init"])
+            if d.get("k") == "rangefor" and isinstance(d.get("var"), dict) and d.get("range") is not None:
+                src.setdefault(d["var"].get("name"), []).append(d["range"])
+        out, todo, seen = set(), [e], set()
+        while todo:
+            x = todo.pop()
+            for y in walk(x):
+                if y.get("k") == "ref":
+                    out.add(y.get("name"))
+                    if y.get("dk") == "local" and y.get("name") in src and y.get("name") not in seen:
+                        seen.add(y["name"])
+                        todo.extend(src[y["name"]])
+                elif y.get("k") == "member":
+                    out.add(y.get("name"))
+                elif y.get("k") == "call" and y.get("name"):
+                    out.add(y["name"])
+        return out
+    for fnname, what, need in (("visitVariable", "variable.uid", {"uid"}), ("visitEdge", "select", {"select"}),
+                               ("visitInstance", "instance type", {"uid", "get_type"}),
+                               ("visitBlockStatement", "frame symbols", {"get_frame"}),
+                               ("visitIterationStatement", "iteration variable", {"symbol", "get_type"})):
         f = _fn(F, fnname)
-        cs = [short(c) for c in calls(f["body"], "checkType")]
-        chk.ob(rid3, "caller|%s" % fnname, any(what.split(".")[0] in c for c in cs),
-               "%s does not check the type of its %s" % (fnname, what), "%s:%s" % (f["file"], f["line"]))
+        pname = f["params"][0]["name"]
+        ok = any((need | {pname}) <= provenance(f, a) for c in calls(f["body"], "checkType") for a in c.get("args", [])[:1])
+        chk.ob(rid3, "caller|%s" % fnname, ok,
+               "%s does not check the type of its %s (no checkType call whose argument derives from %s of `%s`)" %
+               (fnname, what, "/".join(sorted(need)), pname), "%s:%s" % (f["file"], f["line"]))
     return chk.finish(
         "Decides the structural clauses of C13: the computability gate dominates acceptance in every listed context, "
         "the read-set computation covers identifiers, calls and all statement fields, and the computable set has "
